@@ -68,7 +68,7 @@ def stratify(rows, classes, rnd, total):
     for c in sorted(by):
         rs = by[c][:]
         rnd.shuffle(rs)
-        picked += rs[:quota]
+        picked += rs if "!" in c else rs[:quota]       # (tables with a structural oddity: all of them)
     rest = [r for r in rows if r not in picked]
     rnd.shuffle(rest)
     picked += rest[:max(0, total - len(picked))]
@@ -76,6 +76,30 @@ def stratify(rows, classes, rnd, total):
 
 
 _TYPE = re.compile(r"type:\s*(formula \d|tabulated nk|tabulated n)\b")
+_ROW = re.compile(r"^\s+([-+0-9.eE]+)[ \t]+([-+0-9.eE]+(?:[ \t]+[-+0-9.eE]+)?)\s*$", re.M)
+
+
+def table_flags(text):
+    """Structural oddities of the tabulated blocks of a data file, from its raw text: rows not in
+    increasing wavelength order ("unsorted"), one wavelength listed twice with different values
+    ("dup").  Files with such tables are rare and are always part of the quick selection."""
+    flags = set()
+    for block in text.split("- type:")[1:]:
+        if not block.lstrip().startswith("tabulated"):
+            continue
+        rows = []
+        for w, rest in _ROW.findall(block):
+            try:
+                rows.append((float(w), rest.split()))
+            except ValueError:
+                pass
+        ws = [r[0] for r in rows]
+        if any(a > b for a, b in zip(ws, ws[1:])):
+            flags.add("unsorted")
+        srt = sorted(rows, key=lambda r: r[0])
+        if any(a[0] == b[0] and a[1] != b[1] for a, b in zip(srt, srt[1:])):
+            flags.add("dup")
+    return flags
 
 
 def classify_files(rows):
@@ -85,7 +109,8 @@ def classify_files(rows):
         fn = r["filename"]
         if fn not in cache:
             with open(os.path.join(R.BASE, fn), encoding="utf-8") as fh:
-                cache[fn] = "+".join(_TYPE.findall(fh.read())) or "none"
+                text = fh.read()
+            cache[fn] = ("+".join(_TYPE.findall(text)) or "none") + "".join("!" + f for f in sorted(table_flags(text)))
         out[r["idx"]] = cache[fn]
     return out
 
